@@ -170,6 +170,38 @@ def job(rx):
     return {"n": len(vs), "cd": True, "bad": bad, "by": b.get("solved_by")}
 
 
+# alkali metals / hydride as the test-suite spells them, mapped and unmapped, with atom-map removal off
+NOAAM = ["OCCO.[Na].[Na]>>[O-]CC[O-].[Na+].[Na+]", "CCO.[K]>>CC[O-].[K+]", "CO.[Li]>>C[O-].[Li+]", "CCO.[H-].[Na+]>>CC[O-].[Na+]",
+         "CC(=O)C.[H-].[Na+]>>CC(O)C", "CCO>>CC=O", "CC(=O)C>>CC(O)C"]
+
+
+def noaam_job(rx):
+    """the same reaction unmapped and in its atom-mapped spellings with remove_aam switched off:
+    same verdict, same added molecules (maps cleared before comparing)"""
+    from rdkit import Chem
+
+    def mapped(side, start):
+        m = Chem.MolFromSmiles(side)
+        for a in m.GetAtoms():
+            a.SetAtomMapNum(start + a.GetIdx())
+        return Chem.MolToSmiles(m, canonical=False)
+
+    l, r = rx.split(">>")
+    vs = [mapped(l, 1) + ">>" + mapped(r, 1), mapped(l, 11) + ">>" + r, l + ">>" + mapped(r, 5)]
+    base = pipeline.run({"rxns": [rx], "remove_aam": False})["rows"]
+    bad = []
+    if not base:
+        return {"n": 0, "bad": [{"key": ["row-count"], "what": "no row", "var": rx}]}
+    b = base[0]
+    if b.get("solved_by") not in ("input-balanced", "rule-based"):
+        return {"n": 0, "bad": []}
+    rows = pipeline.run({"rxns": vs, "remove_aam": False})["rows"] or []
+    for v, row in zip(vs, rows):
+        for key, what in compare(rx, b, v, row):
+            bad.append({"key": ["remove_aam-off"] + key, "what": what, "var": v})
+    return {"n": len(vs), "bad": bad}
+
+
 def run(tier, seed):
     res = Result("exploration")
     alpha = A14 if tier == "thorough" else A14[:8]
@@ -192,6 +224,11 @@ def run(tier, seed):
             by[x.get("by")] = by.get(x.get("by"), 0) + 1
         for b in x["bad"]:
             res.add(Violation("spelling", {"rxn": rx, "variant": b["var"]}, None, None, b["key"], b["what"]))
+    rn = pmap("checks.c14:noaam_job", NOAAM, chunk=1, seed=seed)
+    for rx, x in zip(NOAAM, rn):
+        n_var += x["n"]
+        for b in x["bad"]:
+            res.add(Violation("remove_aam-off", {"rxn": rx, "variant": b["var"]}, None, None, b["key"], b["what"]))
     res.coverage = {
         "evaluations": len(rxns) + n_var,
         "distinct_nontrivial": n_var,
@@ -214,6 +251,9 @@ def run(tier, seed):
 
 def replay(v):
     rx, var = v.case["rxn"], v.case["variant"]
+    if v.sub == "remove_aam-off":
+        x = noaam_job(rx)
+        return [Violation(v.sub, v.case, None, None, b["key"], b["what"]) for b in x["bad"] if b["key"] == v.key and b["var"] == var][:1]
     b = pipeline.run({"rxns": [rx], "fresh": True})["rows"][0]
     row = pipeline.run({"rxns": [var], "fresh": True})["rows"][0]
     return [Violation("spelling", v.case, row, b, key, what) for key, what in compare(rx, b, var, row) if key == v.key]
